@@ -221,10 +221,12 @@ def _decorator_memos(modname, M, tree):
                             continue
                         ns = names_in(a.annotation) - {"Optional", "Union", "None", "Sequence", "Tuple", "List", "FrozenSet", "Type", "typing", "t"}
                         hit = ns & _CONFLATING
+                        if hit == {"bool"}:
+                            hit = set()          # a parameter that only ever holds True / False has nothing to conflate
                         if hit and not (typed and ns <= {"int", "float", "bool", "complex"}):
                             bad.append("%s: %s" % (a.arg, ast.unparse(a.annotation)))
                             continue
-                        for nm in ns - {"str", "bytes"} - _CONFLATING:
+                        for nm in ns - {"str", "bytes", "bool"} - _CONFLATING:
                             cls = getattr(M, nm, None)
                             if not (isinstance(cls, type) and cls.__eq__ is object.__eq__ and cls.__hash__ is object.__hash__):
                                 unknown.append("%s: %s" % (a.arg, nm))
@@ -288,6 +290,7 @@ def obligations(modules):
 
 # the modules whose functions a property's answer is computed by (the property quantifies over call histories, or its answer must be a function of the input)
 MODULES = {
+    "C02": (["py_gql.lang.parser", "py_gql.lang.lexer", "py_gql.lang.token"], "the tree is a function of the text and the options"),
     "C03": (["py_gql.lang.printer"], "printing is a function of the tree"),
     "C04": (["py_gql.execution.executor", "py_gql.execution.blocking_executor", "py_gql.execution.wrappers", "py_gql.utilities.collect_fields"], "one request does not depend on earlier ones"),
     "C06": (["py_gql.validation.validate", "py_gql.validation.visitors", "py_gql.validation.rules", "py_gql.validation.rules.overlapping_fields_can_be_merged",
